@@ -73,6 +73,8 @@ impl<S> MergeUnbounded<S> {
                 self.groups.push(MergeBounded {
                     streams: FuturesUnorderedBounded::new(MIN_CAPACITY),
                 });
+                #[cfg(futures_buffered_verif)]
+                crate::verif::ev(crate::verif::kind::GROUP_NEW, self.groups[0].streams.shared.verif_header(), MIN_CAPACITY, 0);
                 self.groups.last_mut().unwrap()
             }
         };
@@ -82,6 +84,8 @@ impl<S> MergeUnbounded<S> {
                 let mut next = MergeBounded {
                     streams: FuturesUnorderedBounded::new(last.streams.capacity() * 2),
                 };
+                #[cfg(futures_buffered_verif)]
+                crate::verif::ev(crate::verif::kind::GROUP_NEW, next.streams.shared.verif_header(), next.streams.capacity(), 0);
                 next.push(stream);
                 self.groups.push(next);
             }
@@ -113,6 +117,8 @@ impl<S: Stream + Unpin> Stream for MergeUnbounded<S> {
                 *poll_next = 0;
             }
 
+            #[cfg(futures_buffered_verif)]
+            crate::verif::ev(crate::verif::kind::GROUP_VISIT, groups[*poll_next].streams.shared.verif_header(), *poll_next, groups.len());
             let poll = Pin::new(&mut groups[*poll_next]).poll_next(cx);
             match poll {
                 Poll::Ready(Some(x)) => {
@@ -120,6 +126,8 @@ impl<S: Stream + Unpin> Stream for MergeUnbounded<S> {
                 }
                 Poll::Ready(None) => {
                     let group = groups.remove(*poll_next);
+                    #[cfg(futures_buffered_verif)]
+                    crate::verif::ev(crate::verif::kind::GROUP_REMOVE, group.streams.shared.verif_header(), *poll_next, groups.len());
                     debug_assert!(group.streams.is_empty());
 
                     if groups.is_empty() {
@@ -131,6 +139,8 @@ impl<S: Stream + Unpin> Stream for MergeUnbounded<S> {
                     // we do not want to drop the last set as it contains
                     // the largest allocation that we want to keep a hold of
                     if *poll_next == groups.len() {
+                        #[cfg(futures_buffered_verif)]
+                        crate::verif::ev(crate::verif::kind::GROUP_REINSERT, group.streams.shared.verif_header(), *poll_next, groups.len());
                         groups.push(group);
                         *poll_next = 0;
                     }
